@@ -264,7 +264,7 @@ fn silent_peer(ctx: &Ctx) -> Outcome {
         Act::Sleep(13_000),
     ];
     let sleep_idx = (alphabet.len() - 1) as u8;
-    let depth = ctx.tier.pick(5, 6);
+    let depth = ctx.tier.pick(6, 7);
     let d = bfs::Driver { name: "silent-peer-after-close".into(), cfg, prefix: vec![], alphabet: alphabet.clone(), depth: 0, state_cap: 0 };
     // all histories of length <= depth over the non-sleep actions in which both halves get dropped
     let n = sleep_idx as usize;
